@@ -114,7 +114,29 @@ def kernel_crosscheck(ctx, limit=150):
         except (ValueError, IndexError):
             continue
         ex.append((lhs, rhs))
-    pre = ["From Coq Require Import List ZArith NArith Arith.", "Require Import Yui.Model.Mono.", "Import ListNotations."]
+    # HPoly over Z (hp Zi / Zb): add / sub (None = panic on different degrees), neg, smul, mul
+    hops = ("add", "sub", "neg", "smul", "mul")
+    hsel = [(c.split(), mm) for c, mm in zip(cases, model)
+            if c.startswith(("hp Zi ", "hp Zb ")) and c.split()[2] in hops]
+    hstep = max(1, len(hsel) // 60)
+    for t, mm in hsel[::hstep][:60]:
+        try:
+            hp = lambda sx: "(@mk_hpoly Z (%d)%%N (%d)%%Z)" % (int(sx.split("@")[0]), int(sx.split("@")[1]))
+            op = t[2]
+            if op in ("add", "sub"):
+                lhs = "h_%s Z_ring %s %s" % (op, hp(t[3]), hp(t[4]))
+                rhs = "None" if mm == "P" else "Some %s" % hp(mm)
+            elif op == "neg":
+                lhs, rhs = "h_neg Z_ring %s" % hp(t[3]), hp(mm)
+            elif op == "smul":
+                lhs, rhs = "h_smul Z_ring %s (%d)%%Z" % (hp(t[3]), int(t[4])), hp(mm)
+            else:
+                lhs, rhs = "h_mul Z_ring %s %s" % (hp(t[3]), hp(t[4])), hp(mm)
+        except (ValueError, IndexError):
+            continue
+        ex.append((lhs, rhs))
+    pre = ["From Coq Require Import List ZArith NArith Arith.", "Require Import Yui.Base.Ring Yui.Model.Mono Yui.Model.Poly.",
+           "Import ListNotations."]
     return C.kernel_examples(ctx, pre, ex)
 
 
